@@ -255,6 +255,29 @@ pub fn stored_pattern(s: &mut Src, m: Md) -> BigUint {
     }
 }
 
+/// square root modulo 2^256 of c = 1 (mod 8), by bitwise lifting; None otherwise
+pub fn sqrt_2adic_256(c: &BigUint) -> Option<BigUint> {
+    if (c % 8u32) != BigUint::one() {
+        return None;
+    }
+    let mut x = BigUint::one();
+    // invariant: x^2 = c (mod 2^(k+1)) for k >= 2
+    for k in 3..256u64 {
+        let m = BigUint::one() << (k + 1);
+        let d = (&m + (c % &m) - ((&x * &x) % &m)) % &m;
+        if d.bit(k) {
+            x += BigUint::one() << (k - 1);
+        }
+    }
+    let two256 = &zp::c().two256;
+    let x = x % two256;
+    if (&x * &x) % two256 == c % two256 {
+        Some(x)
+    } else {
+        None
+    }
+}
+
 /// inverse of an odd number modulo 2^256 (Newton iteration)
 pub fn inv_mod_2_256(a: &BigUint) -> BigUint {
     let r = &zp::c().two256;
@@ -272,7 +295,36 @@ pub fn inv_mod_2_256(a: &BigUint) -> BigUint {
 pub fn felt_pair(s: &mut Src, m: Md) -> (Felt, Felt, &'static str) {
     let p = m.p();
     let a = felt(s, m);
-    match s.weighted(&[8, 2, 2, 2, 2, 2, 2, 3, 3, 2, 3]) {
+    match s.weighted(&[8, 2, 2, 2, 2, 2, 2, 3, 3, 2, 3, 3]) {
+        11 => {
+            // square with chosen Montgomery quotient digits: stored a with a^2 = -m*p (mod 2^256) for a limb pattern m
+            // (2-adic square root; exists iff -m*p = 1 mod 8, which is arranged through the low bits of m)
+            let two256 = &zp::c().two256;
+            let mut mq = limb_pattern(s);
+            let mut tries = 0u32;
+            loop {
+                // fix the low three bits of m so that c = -m*p = 1 (mod 8): m = -p^-1 (mod 8)
+                let pinv8 = inv_mod_2_256(p) % 8u32;
+                let want = (BigUint::from(8u32) - pinv8) % 8u32;
+                mq = ((&mq >> 3u32) << 3u32) + want;
+                let c = (two256 - (&mq * p) % two256) % two256;
+                if let Some(rt) = sqrt_2adic_256(&c) {
+                    // four roots: +-rt, +-rt + 2^255; take the first one below p
+                    let half = BigUint::one() << 255;
+                    let cands = [rt.clone(), (two256 - &rt) % two256, (&rt + &half) % two256, (two256 - &rt + &half) % two256];
+                    if let Some(sa) = cands.iter().find(|x| *x < p && !x.is_zero()) {
+                        let av = (sa * m.rinv()) % p;
+                        return (Felt { v: av.clone(), class: "derived" }, Felt { v: av, class: "derived" }, "square-quotient-target");
+                    }
+                }
+                mq = (mq + (BigUint::from(0x9E3779B97F4A7C15u64) << 64)) % two256;
+                tries += 1;
+                if tries > 8 {
+                    let b = Felt { v: a.v.clone(), class: a.class };
+                    return (a, b, "equal");
+                }
+            }
+        }
         10 => {
             // inverse-targeted: a = 1/c(t), so that the stored result of inverse(a) is the pattern t
             let t = stored_pattern(s, m);
